@@ -76,7 +76,9 @@ MonitorErrors(r) ==
                                /\ Limb(obs[j].revision) = d.tag
                                /\ obs[j].alias = d.alias
                                /\ obs[j].dc = DcName(d.dc)
-                               /\ (d.named => obs[j].name = "DEV" \o ToString(d.tag)) )}}
+                               /\ (d.named => obs[j].name = d.name)
+                               \* the link state of each of the four ports, as the device's DL status has it
+                               /\ obs[j].ports = r.devices_after[pos + 1].ports_open )}}
                   \cup (IF n > 0 /\ \E i \in 1..n : r.devices_after[i].al # PREOP
                         THEN {<<"NotPreOp", [i \in 1..n |-> r.devices_after[i].al]>>} ELSE {})
                   \cup (IF n > 0 /\ r.order.first_fp_access # -1
